@@ -456,6 +456,21 @@ Case vf_generate() {
     }
     c.toks.push_back(t);
   }
+  if (vf::known("ellipsis-lookbehind")) {
+    // the same finding through the printer, by accident: five independently generated numbers that happen to count
+    // up or down are printed as 'b ... c' as well (thorough tier, 1 in ~5e6 texts); the fifth one is replaced
+    int len = 0;
+    for (size_t i = 0; i < c.toks.size(); i++) {
+      const Tok &t = c.toks[i];
+      bool single = t.vals.size() == 1 && !t.range && t.kind != "plain.run" && (t.first == 'i' || t.first == 'h' || t.first == 'c');
+      if (!single) { len = 0; continue; }
+      if (len >= 1 && c.toks[i - 1].first != t.first) len = 0;
+      if (len >= 2 && t.vals[0].i - c.toks[i - 1].vals[0].i != c.toks[i - 1].vals[0].i - c.toks[i - 2].vals[0].i) len = 1;
+      if (len == 1 && t.vals[0].i == c.toks[i - 1].vals[0].i) len = 0;
+      len++;
+      if (len >= 5) { c.toks[i] = one("nil", mk('N'), "N"); len = 0; vf::G().ctx.count("excluded.ellipsis-lookbehind"); }
+    }
+  }
   for (size_t i = 0; i < c.toks.size(); i++) {
     bool last = i + 1 == c.toks.size();
     c.seps1.push_back(gen_sep(true, last));
